@@ -889,6 +889,14 @@ func stripWidening(info *types.Info, e ast.Expr) ast.Expr {
 		}
 		dst, ok1 := tv.Type.Underlying().(*types.Basic)
 		src, ok2 := info.TypeOf(call.Args[0]).Underlying().(*types.Basic)
+		if ok1 && ok2 && dst.Info()&types.IsFloat != 0 && src.Info()&types.IsFloat != 0 {
+			// float32 -> float64 is exact and keeps the order; the other way round rounds
+			if dst.Kind() == types.Float64 || dst.Kind() == src.Kind() {
+				e = call.Args[0]
+				continue
+			}
+			return e
+		}
 		if !ok1 || !ok2 || dst.Info()&types.IsInteger == 0 || src.Info()&types.IsInteger == 0 {
 			return e
 		}
